@@ -1055,6 +1055,7 @@ func (sc *serverConn) writeGoAway(strm uint32, code ErrorCode, message string) {
 	// on, and so which it must not replay elsewhere: never less than the newest
 	// stream that was opened, whichever stream the error is about.
 	last := atomic.LoadUint32(&sc.lastID)
+	verifYield("goaway-loaded-last")
 	if strm > last {
 		last = strm
 	}
